@@ -121,4 +121,73 @@ def deriveAtomsAll (t : Node) (A : CAtoms) : CAtoms :=
   let B := deriveAtomsFull t A
   { B with dataTable := fun i => match derivedDataTable t B i with | some b => b | none => A.dataTable i }
 
+/-! ### the same, computed once per page
+
+The driver uses these: every answer is computed once per element and looked up afterwards;
+`deriveAtomsFast_eq` / `deriveAtomsAllFast` tie them to the definitions above. -/
+
+structure DRow where
+  id : Nat
+  disp : String
+  vis : Bool
+  unl : Bool
+  may : Bool
+  byl : Bool
+
+def deriveTable (t : Node) : List DRow :=
+  t.elems.map fun e => ⟨e.id, derivedDisplay e.attrs, derivedVisHidden e.attrs, derivedUnlikely e.attrs, derivedMaybe e.attrs, derivedByline e⟩
+
+def rowOf (tbl : List DRow) (i : Nat) : Option DRow := tbl.find? (fun r => r.id == i)
+
+def deriveAtomsFast (t : Node) (A : CAtoms) : CAtoms :=
+  let tbl := deriveTable t
+  { A with
+    styleDisplay := fun i => match rowOf tbl i with | some r => r.disp | none => derivedDisplay [],
+    visHidden := fun i => match rowOf tbl i with | some r => r.vis | none => derivedVisHidden [],
+    rxUnlikely := fun i => match rowOf tbl i with | some r => r.unl | none => derivedUnlikely [],
+    rxMaybe := fun i => match rowOf tbl i with | some r => r.may | none => derivedMaybe [] }
+
+theorem rowOf_deriveTable (t : Node) (i : Nat) :
+    rowOf (deriveTable t) i = (t.elems.find? (fun e => e.id == i)).map
+      (fun e => ⟨e.id, derivedDisplay e.attrs, derivedVisHidden e.attrs, derivedUnlikely e.attrs, derivedMaybe e.attrs, derivedByline e⟩) := by
+  unfold rowOf deriveTable
+  rw [List.find?_map]
+  rfl
+
+theorem row_lookup {α : Type} (t : Node) (i : Nat) (f : DRow → α) (g : List Attr → α)
+    (hfg : ∀ e : Node, f ⟨e.id, derivedDisplay e.attrs, derivedVisHidden e.attrs, derivedUnlikely e.attrs, derivedMaybe e.attrs, derivedByline e⟩ = g e.attrs) :
+    (match rowOf (deriveTable t) i with | some r => f r | none => g []) = g (attrsOf t i) := by
+  rw [rowOf_deriveTable]
+  unfold attrsOf
+  cases t.elems.find? (fun e => e.id == i) with
+  | none => simp only [Option.map_none]
+  | some e => simp only [Option.map_some]; exact hfg e
+
+theorem deriveAtomsFast_eq (t : Node) (A : CAtoms) : deriveAtomsFast t A = deriveAtoms t A := by
+  have h1 : (fun i => match rowOf (deriveTable t) i with | some r => r.disp | none => derivedDisplay []) =
+      fun i => derivedDisplay (attrsOf t i) := by
+    funext i; exact row_lookup t i (·.disp) derivedDisplay (fun _ => by dsimp only)
+  have h2 : (fun i => match rowOf (deriveTable t) i with | some r => r.vis | none => derivedVisHidden []) =
+      fun i => derivedVisHidden (attrsOf t i) := by
+    funext i; exact row_lookup t i (·.vis) derivedVisHidden (fun _ => by dsimp only)
+  have h3 : (fun i => match rowOf (deriveTable t) i with | some r => r.unl | none => derivedUnlikely []) =
+      fun i => derivedUnlikely (attrsOf t i) := by
+    funext i; exact row_lookup t i (·.unl) derivedUnlikely (fun _ => by dsimp only)
+  have h4 : (fun i => match rowOf (deriveTable t) i with | some r => r.may | none => derivedMaybe []) =
+      fun i => derivedMaybe (attrsOf t i) := by
+    funext i; exact row_lookup t i (·.may) derivedMaybe (fun _ => by dsimp only)
+  unfold deriveAtomsFast deriveAtoms
+  simp only [h1, h2, h3, h4]
+
+/-- all seven answers and the table classifier, the per-element ones looked up in the table -/
+def deriveAtomsAllFast (t : Node) (A : CAtoms) : CAtoms :=
+  let tbl := deriveTable t
+  let counter := selectCounter (IE.textContent t)
+  let B : CAtoms :=
+    { deriveAtomsFast t A with
+      byline := fun i => match rowOf tbl i with | some r => r.byl | none => false,
+      blank := fun i => match findNode i t with | some (.text _ d) => derivedBlank d | _ => false,
+      words := fun i => match findNode i t with | some (.text _ d) => counter.count d.toList | _ => 0 }
+  { B with dataTable := fun i => match derivedDataTable t B i with | some b => b | none => A.dataTable i }
+
 end Distill
